@@ -33,6 +33,20 @@ CHECKS["C05"] = dict(
          "comparison tolerances 1e-9 (barycentrics) and 1e-9 relative + rounding allowance (d2).",
     technique="TLA+ transcription of the kernel model-checked by TLC (contract + invariances) + replay of every enumerated case into compute_node_triangle_distance")
 
+CHECKS["C01"] = dict(
+    category="model_checking", design_ref="DESIGN.md §C01, §3.1",
+    text="spec/Mesh models the slot-indexed triangle list, both LIFO free lists, face types and the cached-normal flag, with split / merge "
+         "(and its link-condition guard) / swap (with its three early-outs) / rebase / refresh written in the code's order of sub-steps; TLC "
+         "explores every chain of operations up to the bound from three seed meshes (plus simulation of long chains in the thorough tier) "
+         "and checks NoRepeat, LiveNodes, Closed (two triangles per edge, opposite directions), Euler, Simple, Bookkeeping and NormalSide in "
+         "every state. Binding: the real operations are executed in every order up to the same depth, in long random chains and inside real "
+         "refine_mesh passes (hook H6); every executed transition is validated by TLC (MeshTrace): the C01 predicates on the real cell after "
+         "the operation, the real edge_set_ against the recomputed index, and the operation against the spec's transition function.",
+    note="No triangle geometrically inverts between a refresh of the normals and the next remeshing operation (solver regime); outwardness is "
+         "decided as preservation of the global orientation by every operation (the sign of the enclosed volume is logged, not asserted); "
+         "exhaustive part bounded to chains of 2 (quick) / 3 (thorough) operations from 3 seeds.",
+    technique="TLA+ spec (Mesh) model-checked by TLC + TLC validation (MeshTrace) of every transition executed by the real remeshing code")
+
 PENDING = {}   # property id -> reason (filled below for everything not in CHECKS)
 NOT_APPLICABLE = {
  "C10": "memory safety / undefined behaviour has no representation in a TLA+ state (no addresses, lifetimes or indeterminate values); "
